@@ -30,7 +30,7 @@ RULE = (
 ASSUMPTIONS = ["the user posterior is deterministic; recorded values are compared at 1e-12 relative (L * (1/T) versus L / T)"]
 TIMEOUT = {"quick": 400, "thorough": 2400}
 REQUIRED = {"rows_rederived": 20000, "programs": 60, "cases:tempered": 20, "cases:bounded": 20, "twin_pairs": 15,
-            "mode_checks": 60, "tempering_runs": 8, "exchanged_points_checked": 10, "reloads": 10, "ensemble:failed_updates": 100, "interrupted_calls": 15}
+            "mode_checks": 60, "tempering_runs": 8, "exchanged_points_checked": 10, "reloads": 10, "ensemble:failed_updates": 100, "interrupted_calls": 15, "own_generator_pairs": 30}
 
 
 def jobs(tier, seed):
@@ -339,6 +339,55 @@ def run_job(job, rec):
                       lambda: f"{kind}: the {name} of two samplers built from the same input arrays does not evolve as it does alone (interleaving {order})", ctx)
         rec.check(all(snapshot(inputs[k]) == snaps[k] for k in inputs), "input-arrays-modified",
                   lambda: f"{kind}: input arrays changed: {[k for k in inputs if snapshot(inputs[k]) != snaps[k]]}", ctx)
+
+    # ------------------------------------------------ independence with the samplers' own generators (nothing re-seeded by the harness)
+    for c in range(job.get("n_own_rng", 4)):
+        kind = mc.KINDS[(c + job["j"]) % len(mc.KINDS)]
+        d = int(rng.choice([1, 2]))
+        tkind, target = _make_target(rng, d)
+        ctx = {"own_generators": c, "kind": kind, "d": d, "target": tkind}
+        rec.context = ctx
+        try:
+            A, inputs = build(kind, target, tkind, d, rng, 1.0, False, 0)
+            B, _ = build(kind, target, tkind, d, rng, 1.0, False, 0, shared=inputs)
+        except Exception as exc:  # noqa: BLE001
+            rec.violation("raised", f"{kind}: construction raised {exc!r}", ctx)
+            continue
+        # build() seeds the generators; undo that: fresh objects exactly as the library makes them
+        from inference.mcmc import GibbsChain, PcaChain, HamiltonianChain, EnsembleSampler
+        from inference.mcmc.gibbs import MetropolisChain
+
+        def fresh():
+            if kind in ("gibbs", "metropolis"):
+                return (GibbsChain if kind == "gibbs" else MetropolisChain)(posterior=target, start=inputs["start"], widths=inputs["widths"], display_progress=False)
+            if kind == "pca":
+                return PcaChain(posterior=target, start=inputs["start"], widths=inputs["widths"], display_progress=False)
+            if kind == "hmc":
+                return HamiltonianChain(posterior=target, start=inputs["start"], grad=getattr(target, "grad", None), epsilon=0.15, display_progress=False)
+            return EnsembleSampler(posterior=target, starting_positions=inputs["positions"], display_progress=False)
+
+        pairs = guarded(lambda: (fresh(), fresh()))
+        if isinstance(pairs, Raised):
+            rec.violation("raised", f"{kind}: construction raised {pairs!r}", ctx)
+            continue
+        # two copies of the pair (a deep copy keeps whatever the two samplers share, shared): in the first the other sampler is used
+        # in between, in the second it is not; the sampler under observation must not notice
+        P1, P2 = copy.deepcopy(pairs), copy.deepcopy(pairs)
+        step = (lambda o, m: o.advance(m)) if kind == "ensemble" else (lambda o, m: [o.take_step() for _ in range(m)])
+        r = guarded(lambda: (step(P1[0], 7), step(P1[1], 9), step(P2[1], 9)))
+        if isinstance(r, Raised):
+            rec.violation("raised", f"{kind}: stepping raised {r!r}", ctx)
+            continue
+        rec.count("own_generator_pairs")
+        sa, pa = mc.full_readout(P1[1])
+        sb, pb = mc.full_readout(P2[1])
+        rec.check(np.array_equal(sa, sb) and np.array_equal(pa, pb), "samplers-share-state",
+                  lambda: f"{kind}: with the generators the library itself creates, a sampler evolves differently when another sampler built from the same inputs is stepped first", ctx)
+        # and two samplers built alike do not produce the same trajectory
+        sc_, _ = mc.full_readout(P1[0])
+        n_ = min(len(sc_), len(sa))
+        rec.check(n_ < 3 or not np.array_equal(sc_[1:n_], sa[1:n_]), "samplers-share-state",
+                  lambda: f"{kind}: two samplers built from the same inputs produce identical trajectories", ctx)
 
     # ------------------------------------------------ points installed by parallel-tempering exchanges
     from inference.mcmc import ParallelTempering
